@@ -99,7 +99,9 @@ class ProcessingPipelineResolver:
 
         def resolve_spec(pipelines: list[PipelineInfo], spec: str) -> list[PipelineInfo]:
             spec_path = Path(spec.rstrip("/*"))
-            if spec_path.is_dir():
+            # The name of a pipeline known to the resolver means that pipeline, also if the
+            # working directory happens to contain a directory with the same name.
+            if spec not in self.pipelines and spec_path.is_dir():
                 pipelines.extend([resolve_path(str(path)) for path in spec_path.glob("**/*.yml")])
             else:
                 pipelines.append(resolve_path(spec))
